@@ -79,9 +79,11 @@ type neighWorld struct {
 	pending  []*pendingSend
 	nsent    int
 	flooded  bool
+	f0       int64 // link write errors fired before the current step
 	ep6      tcpip.Endpoint
 	gen6     [3]int
 	learned6 map[int]tcpip.LinkAddress
+	lastNS6  [3]time.Duration // when a resolution of the IPv6 neighbour was last seen starting (+1 ns; 0 = never)
 	ev       int64
 }
 
@@ -309,6 +311,7 @@ func (w *neighWorld) poll() {
 }
 
 func (w *neighWorld) apply(s Step) {
+	w.f0 = w.Faults["link_write_error"]
 	switch s.Op {
 	case "send":
 		dst := neighAddr(s.A % 6)
@@ -368,7 +371,9 @@ func (w *neighWorld) apply(s Step) {
 		}
 		if tgt == A4 {
 			w.Probes["requests_for_own_address"]++
-			if len(replies) != 1 {
+			if len(replies) != 1 && w.Faults["link_write_error"] != w.f0 {
+				w.Probes["reply_refused_by_the_device"]++ // injected: excused
+			} else if len(replies) != 1 {
 				w.Fail("request-not-answered", "", "ARP request for the stack's own address % x drew %d replies", []byte(tgt), len(replies))
 			} else {
 				r := replies[0]
@@ -417,7 +422,9 @@ func (w *neighWorld) apply(s Step) {
 				}
 			}
 		}
-		if tgt == A6 && na != 1 {
+		if tgt == A6 && na != 1 && w.Faults["link_write_error"] != w.f0 {
+			w.Probes["reply_refused_by_the_device"]++
+		} else if tgt == A6 && na != 1 {
 			w.Fail("request-not-answered", "", "neighbour solicitation for the stack's own address drew %d advertisements", na)
 		}
 		if tgt != A6 && na != 0 {
@@ -447,6 +454,10 @@ func (w *neighWorld) apply(s Step) {
 		w.observe()
 	case "send6":
 		w.send6(s)
+	case "linkfault":
+		// the device refuses the next frame(s): a refused resolution request is a lost request, no more
+		w.S.Link.FailWrites = 1 + s.A%2
+		w.Probes["link_write_faults_armed"]++
 	case "adv":
 		w.Advance(time.Duration(s.D))
 		w.observe()
@@ -479,7 +490,13 @@ func (w *neighWorld) send6(s Step) {
 		w.Settle()
 		return err, ch
 	}
+	f0 := w.Faults["link_write_error"]
 	err, ch := write()
+	if w.Faults["link_write_error"] != f0 {
+		w.Probes["send6_hit_a_link_fault"]++
+		w.lastNS6[k] = w.now() + 1 // (a resolution is under way: its first solicitation was refused)
+		return                     // the solicitation (or the datagram) was refused by the device: the retry comes a second later, not judged here
+	}
 	if err == tcpip.ErrWouldBlock && ch != nil {
 		// answer the solicitation
 		solicited := false
@@ -487,6 +504,13 @@ func (w *neighWorld) send6(s Step) {
 			if d.ICMP != nil && d.IP != nil && d.IP.V6 && d.ICMP.Type == 135 && len(d.ICMP.Body) >= 20 && bytes.Equal(d.ICMP.Body[4:20], []byte(dst)) {
 				solicited = true
 			}
+		}
+		if solicited {
+			w.lastNS6[k] = w.now() + 1
+		}
+		if !solicited && w.lastNS6[k] != 0 && w.now()+1-w.lastNS6[k] < 3500*time.Millisecond {
+			w.Probes["send6_joined_a_resolution_under_way"]++
+			return
 		}
 		if !solicited {
 			w.Fail("request-not-broadcast", "", "a send to IPv6 neighbour % x waits for resolution but no neighbour solicitation for it was emitted", []byte(dst))
@@ -509,8 +533,14 @@ func (w *neighWorld) send6(s Step) {
 			body = append(append(body, other...), tlla...)
 			w.Probes["advertisement_with_another_option_first"]++
 		}
-		msg := codec.EncodeICMPv6([]byte(dst), []byte(A6), 136, 0, 0x60000000, body)
-		w.Inject(w.S.Link, ipv6.ProtocolNumber, codec.IPv6([]byte(dst), []byte(A6), codec.ProtoICMPv6, 255, msg), mac, stackMAC, 0)
+		from := dst
+		if s.C%3 == 2 {
+			// the advertisement for the target comes from another address of the neighbour's interface (its link-local one)
+			from = tcpip.Address("\xfe\x80\x00\x00\x00\x00\x00\x00\x00\x00\x00\x00\x00\x00\x00" + string([]byte{byte(0x20 + k)}))
+			w.Probes["advertisement_from_another_address"]++
+		}
+		msg := codec.EncodeICMPv6([]byte(from), []byte(A6), 136, 0, 0x60000000, body)
+		w.Inject(w.S.Link, ipv6.ProtocolNumber, codec.IPv6([]byte(from), []byte(A6), codec.ProtoICMPv6, 255, msg), mac, stackMAC, 0)
 		w.learned6[k] = mac
 		select {
 		case <-ch:
@@ -541,9 +571,11 @@ func (w *neighWorld) send6(s Step) {
 
 func (w *neighWorld) next(cfg NeighCfg) Step {
 	r := w.Rng
-	switch r.Pick(8, 6, 4, 2, 8, 1, 3) {
+	switch r.Pick(8, 6, 4, 2, 8, 1, 3, 1) {
+	case 7:
+		return Step{Op: "linkfault", A: r.Intn(2)}
 	case 6:
-		return Step{Op: "send6", A: r.Intn(3), B: r.Intn(3), C: r.Intn(4)}
+		return Step{Op: "send6", A: r.Intn(3), B: r.Intn(3), C: r.Intn(6)}
 	case 0:
 		return Step{Op: "send", A: r.Intn(6), B: r.Pick(4, 1)}
 	case 1:
@@ -572,6 +604,16 @@ func (scNeigh) Run(t *testing.T, prop string, seed uint64, cfgRaw json.RawMessag
 		defer w.Close()
 		w.TraceOn = trace
 		w.YieldP = cfg.YieldP
+		w.OnLinkError = func(f *Frame) {
+			// a resolution request the device refused is an attempt all the same
+			if f.Proto == arp.ProtocolNumber {
+				if a, err := codec.DecodeARP(f.Data); err == nil && a.Op == 1 {
+					tgt := tcpip.Address(a.TPA)
+					w.reqTimes[tgt] = append(w.reqTimes[tgt], f.At)
+					w.Probes["requests_refused_by_the_device"]++
+				}
+			}
+		}
 		w.S.S.SetRouteTable([]tcpip.Route{
 			{Destination: "\x0a\x00\x00\x00", Mask: "\xff\xff\xff\x00", NIC: 1},
 			{Destination: "\x00\x00\x00\x00", Mask: "\x00\x00\x00\x00", Gateway: gateway4, NIC: 1},
